@@ -389,6 +389,59 @@ def actions_reach(ai: int, ns: int, svc_state: int, app_state: int, nic_en: bool
             check(before == after, f"action {name} was refused but changed the state")
 
 
+TERM_REQS = ["send_remote_command", "node_session_remote_login", "send_local_command"]  # (logging off is not gated by the service state: the disconnect is delivered either way)
+
+
+def svc_gate(ri: int, ts: int, hist: int):
+    """Requests of a service whose own gate (the service must be RUNNING) sits inside the handler: the terminal of pc_a
+    is put in every service operating state, after a history in which earlier terminal requests SUCCEEDED (so that a
+    'last response' is stored). A request the terminal cannot carry out while not RUNNING is not answered success and
+    changes nothing on either node."""
+    from harness.c16_sessions import A_IP, B_IP, _build
+    from primaite.simulator.system.services.service import ServiceOperatingState as SS
+
+    assume(all_of(rng(ri, 0, len(TERM_REQS) - 1), rng(ts, 0, len(list(SS)) - 1), rng(hist, 0, 2)))
+    req = pick(TERM_REQS, ri)
+    state = pick(list(SS), ts)
+    h = pick_int(hist, 0, 2)
+    with concrete():
+        sim, a, b = _build(0)
+        base = ["network", "node", "pc_a", "service", "terminal"]
+        # history: 0 = none, 1 = successful remote login, 2 = successful remote login + successful remote command
+        if h >= 1:
+            r = sim.apply_request(base + ["node_session_remote_login", "admin", "admin", B_IP])
+            if r.status != "success":
+                fail(f"harness history: remote login answered {r.status}")
+        if h >= 2:
+            r = sim.apply_request(base + ["send_remote_command", B_IP, {"command": ["file_system", "create", "folder", "first"]}])
+            if r.status != "success":
+                fail(f"harness history: remote command answered {r.status}")
+    a.software_manager.software["terminal"].operating_state = state
+    request = base + {
+        "send_remote_command": ["send_remote_command", B_IP, {"command": ["file_system", "create", "folder", "second"]}],
+        "node_session_remote_login": ["node_session_remote_login", "admin", "admin", B_IP],
+        "send_local_command": ["send_local_command", "admin", "admin", {"command": ["file_system", "create", "folder", "second"]}],
+    }[req]
+    with concrete():
+        before = (snap(a), snap(b))
+    try:
+        resp = sim.apply_request(request)
+    except Exception as e:
+        fail(f"apply_request({request}) raised {type(e).__name__}: {e}")
+    check(resp is not None and resp.status in STATUSES, f"request {request} not answered with a documented status")
+    if state.name != "RUNNING":
+        cover("gate_closed")
+        check(resp.status != "success", lambda: f"terminal request {req} answered success although the terminal is {state.name} (history {h}): {str(resp.data)[:120]}")
+        with concrete():
+            after = (snap(a), snap(b))
+        if req == "send_remote_command":  # (a login attempt may still be delivered and authenticated by the target; a command is never sent)
+            check(before[1] == after[1], lambda: f"terminal request {req} with the terminal {state.name} changed the state of the target node")
+        # (the handler is reached, so bookkeeping on the requesting node - e.g. the local login of send_local_command -
+        # may change; what must not happen is a reported success or an effect on the target)
+    else:
+        cover("gate_open")
+
+
 def _depends_on_created(name, opts):
     # removing an application that is not installed addresses a missing component
     return name == "node-application-remove" and opts.get("application_name") == "dos-bot"
@@ -421,6 +474,13 @@ HARNESSES = {
             "quick": "all argument-free/templated leaf paths of client_1; node ON/OFF; unmodified, misspelt at depth 3/4, truncated to 3..7 elements; all service and application states",
             "thorough": "both topologies, all 4 power states, every mutation position and truncation length",
         },
+    },
+    "svc_gate": {
+        "fn": svc_gate,
+        "quick": [{"fixed": {}, "timeout": 200}],
+        "thorough": [{"fixed": {}, "timeout": 400}],
+        "cover": ["gate_closed", "gate_open"],
+        "bounds": "3 terminal requests (remote command, remote login, local command) x every ServiceOperatingState of the requesting node's terminal x 3 histories (none / successful login / successful login and command) on two connected real nodes",
     },
     "actions_reach": {
         "fn": actions_reach,
